@@ -3,8 +3,9 @@
 // workers added and re-registered while running, concurrent Shutdown/ShutdownAndWait/Run callers, the
 // BackgroundWorker-vs-Shutdown window forced through the `verif` hook), records the observable events
 // with an atomic logical clock and prints them as request lines.  The Lean driver (drv_c20) answers
-//   * the `do` lines of sequential cases by simulating the protocol model (differential tie), and
-//   * the final `check` line of every case by evaluating the C20 trace predicates on the event log.
+//   - the `do` lines of sequential cases by simulating the protocol model (differential tie), and
+//   - the final `check` line of every case by evaluating the C20 trace predicates on the event log.
+//
 // The impl column of `check` is the verdict of the independent Go oracle in oracle.go.
 package main
 
@@ -51,22 +52,24 @@ type inst struct {
 }
 
 type world struct {
-	d       *daemon.OrderedDaemon
-	clk     atomic.Int64
-	mu      sync.Mutex
-	evs     []event
-	insts   []*inst
-	byName  map[int]*inst // latest accepted instance per name
-	nextID  int
-	bg      sync.WaitGroup
-	runDone atomic.Bool
-	seq     bool
-	parked  chan struct{}
-	release chan struct{}
-	parkWg  sync.WaitGroup
-	lateOps map[int]bool // instance ids accepted after a `run` op was issued
-	timedOut atomic.Bool // a guard expired in this case: later guards are short
-	ranRun  bool
+	d         *daemon.OrderedDaemon
+	clk       atomic.Int64
+	mu        sync.Mutex
+	evs       []event
+	insts     []*inst
+	byName    map[int]*inst // latest accepted instance per name
+	nextID    int
+	bg        sync.WaitGroup
+	runDone   atomic.Bool
+	seq       bool
+	parked    chan struct{}
+	release   chan struct{}
+	parkWg    sync.WaitGroup
+	lateOps   map[int]bool // instance ids accepted after a `run` op was issued
+	timedOut  atomic.Bool  // a guard expired in this case: later guards are short
+	allKicked atomic.Bool  // `kickall` was issued: instances created later are released at once
+	panics    []string     // "api: message" of recovered panics of daemon calls
+	ranRun    bool
 }
 
 // ---- hook: park the armed BackgroundWorker call between its stopped check and the lock ----
@@ -106,6 +109,13 @@ func newWorld(seq bool) *world {
 	return w
 }
 
+func (w *world) notePanic(api, msg string) {
+	w.mu.Lock()
+	w.panics = append(w.panics, api+": "+msg)
+	w.mu.Unlock()
+	w.log("panic")
+}
+
 // guard is generous until the first expiry in a case; after that the case only has to end.
 func (w *world) guard() time.Duration {
 	if w.timedOut.Load() {
@@ -131,6 +141,11 @@ func (w *world) newInst(name, order int, kind string) *inst {
 	w.nextID++
 	in := &inst{id: w.nextID, name: name, order: order, kind: kind, finish: make(chan struct{})}
 	w.insts = append(w.insts, in)
+	if w.allKicked.Load() {
+		// registered by a `go bw` that was scheduled after `kickall`: it must not stay gated for ever
+		in.finReq.Store(true)
+		in.finOnce.Do(func() { close(in.finish) })
+	}
 
 	return in
 }
@@ -325,7 +340,7 @@ func (w *world) guarded(what string, f func()) string {
 	go func() {
 		defer close(done)
 		if p := hx.Safely(f); p != "" {
-			w.log("panic")
+			w.notePanic(what, p)
 		}
 	}()
 	select {
@@ -341,7 +356,7 @@ func (w *world) guarded(what string, f func()) string {
 func (w *world) sdw() string {
 	c := w.newInst(-1, 0, "call").id
 	w.log(fmt.Sprintf("sdcall %d", c))
-	res := w.guarded("sdw", func() { w.d.ShutdownAndWait() })
+	res := w.guarded("ShutdownAndWait", func() { w.d.ShutdownAndWait() })
 	if res == "ok" {
 		w.log(fmt.Sprintf("sdret %d", c))
 	}
@@ -353,7 +368,7 @@ func (w *world) run() {
 	c := w.newInst(-1, 0, "call").id
 	w.log(fmt.Sprintf("runcall %d", c))
 	if p := hx.Safely(func() { w.d.Run() }); p != "" {
-		w.log("panic")
+		w.notePanic("Run", p)
 
 		return
 	}
@@ -456,7 +471,7 @@ func (w *world) exec(r *rec, op string) string {
 	case "bw":
 		ans = w.bw(atoi(1), atoi(2), f[3])
 	case "start":
-		ans = w.guarded("start", func() { w.d.Start() })
+		ans = w.guarded("Start", func() { w.d.Start() })
 	case "fin", "kick":
 		in := w.latest(atoi(1))
 		if in == nil {
@@ -473,6 +488,7 @@ func (w *world) exec(r *rec, op string) string {
 			}
 		}
 	case "kickall":
+		w.allKicked.Store(true)
 		for _, in := range w.snapshotInsts() {
 			if in.kind != "call" {
 				in.finOnce.Do(func() { close(in.finish) })
@@ -687,7 +703,8 @@ func runCase(script []string) *caseResult {
 		r.Count("ev:" + strings.Fields(e)[0])
 	}
 	verdict := oracle(r, w, evs, script)
-	r.Line("check", verdict)
+	r.Line("verdict", verdict)
+	r.Line("check", checkAnswer(r.res))
 	r.Count("verdict:" + verdict)
 	classify(r, evs, script)
 
